@@ -6,3 +6,4 @@ import MtailVerif.Props.C10
 #print axioms MtailVerif.C10.gc_expiry_exact
 #print axioms MtailVerif.C10.gc_frame
 #print axioms MtailVerif.C10.gc_at_most_limit
+#print axioms MtailVerif.C10.metric_skeletons
